@@ -19,12 +19,33 @@ type Job struct {
 	Out     string      `json:"out"`
 	// NowOffsetSec advances sop.Now in the child (recovery ages) without touching file mtimes.
 	NowOffsetSec int64 `json:"now_offset_sec,omitempty"`
+	// victim: run History.Txns[:Victim] then Txns[Victim] and die at backend call CrashK of its Commit
+	// (before the call, or right after it returned when CrashAfter).
+	History    *History `json:"history,omitempty"`
+	Victim     int      `json:"victim,omitempty"`
+	CrashK     int      `json:"crash_k,omitempty"`
+	CrashAfter bool     `json:"crash_after,omitempty"`
+	// restart: number of warm-up write transactions before the final dump, and the probe key base
+	Warmups int `json:"warmups,omitempty"`
 }
 
 // JobResult is what the child writes to Job.Out.
 type JobResult struct {
 	Err   string      `json:"err,omitempty"`
 	Dumps []StoreDump `json:"dumps,omitempty"`
+	// victim
+	Pre        []*Model `json:"pre,omitempty"`
+	Post       []*Model `json:"post,omitempty"`
+	CommitCall int      `json:"commit_calls,omitempty"` // dry run (CrashK < 0): calls made by the commit
+	Sites      []string `json:"sites,omitempty"`
+	CrashSite  string   `json:"crash_site,omitempty"`
+	Committed  bool     `json:"committed,omitempty"`
+	// restart
+	FirstDumpErr string      `json:"first_dump_err,omitempty"`
+	FirstDumps   []StoreDump `json:"first_dumps,omitempty"`
+	WarmupErrs   []string    `json:"warmup_errs,omitempty"`
+	ProbeErr     string      `json:"probe_err,omitempty"`
+	RetryErr     string      `json:"retry_err,omitempty"`
 }
 
 // RunJob re-executes the current test binary as a worker (`-test.run=^TestWorker$`), a brand-new OS
@@ -43,10 +64,14 @@ func RunJob(j Job) (*JobResult, error) {
 	cmd := exec.Command(os.Args[0], "-test.run=^TestWorker$", "-test.timeout=120s")
 	cmd.Env = append(os.Environ(), "VERIF_JOB="+f.Name(), "VERIF_STATS=")
 	out, err := cmd.CombinedOutput()
+	if os.Getenv("VERIF_WORKER_LOG") != "" {
+		os.WriteFile(j.Dir+"/worker.log", out, 0o644)
+	}
 	rb, rerr := os.ReadFile(j.Out)
 	if rerr != nil {
 		return nil, fmt.Errorf("HARNESS-ERROR worker wrote no result (exit: %v): %s", err, tailOf(string(out), 2000))
 	}
+	_ = out
 	var r JobResult
 	if err := json.Unmarshal(rb, &r); err != nil {
 		return nil, fmt.Errorf("HARNESS-ERROR worker result: %w", err)
@@ -89,10 +114,132 @@ func WorkerMain() bool {
 			r.Err = err.Error()
 		}
 		r.Dumps = d
+	case "victim":
+		runVictimJob(e, j, &r)
+	case "restart":
+		runRestartJob(e, j, &r)
 	default:
 		r.Err = "unknown job kind " + j.Kind
 	}
 	ob, _ := json.Marshal(r)
 	os.WriteFile(j.Out, ob, 0o644)
 	return true
+}
+
+func flushResult(j Job, r *JobResult) {
+	ob, _ := json.Marshal(r)
+	os.WriteFile(j.Out, ob, 0o644)
+}
+
+// runVictimJob replays the committed prefix and then the victim, which exits the process (no cleanup, no
+// deferred functions) at the planned backend call of its Commit. With CrashK < 0 it is a dry run.
+func runVictimJob(e *Env, j Job, r *JobResult) {
+	h := j.History
+	SeedUUIDs(h.UUIDSeed)
+	if err := e.Setup(h.Stores); err != nil {
+		r.Err = "HARNESS-ERROR setup: " + err.Error()
+		return
+	}
+	models := make([]*Model, len(h.Stores))
+	for i, s := range h.Stores {
+		models[i] = &Model{Unique: s.Unique}
+	}
+	for i := 0; i < j.Victim; i++ {
+		var res TxnResult
+		models, res = e.RunTxn(h.Txns[i], h.Stores, models, RunOpts{})
+		if res.OpErr != nil || res.Mismatch != "" || res.CommitErr != nil {
+			r.Err = fmt.Sprintf("HARNESS-ERROR prefix txn %d: %v %s %v", i+1, res.OpErr, res.Mismatch, res.CommitErr)
+			return
+		}
+	}
+	r.Pre = models
+	before := 0
+	var tx *Txn
+	_, res := e.RunTxn(h.Txns[j.Victim], h.Stores, models, RunOpts{BeforeCommitModels: func(t *Txn, post []*Model) {
+		tx = t
+		r.Post = post
+		before = t.Calls()
+		flushResult(j, r)
+		if j.CrashK < 0 {
+			return
+		}
+		t.PassThroughPLogRemove.Store(true)
+		t.SetHook(func(s Site) Action {
+			if s.N-before == j.CrashK && s.After == j.CrashAfter {
+				r.CrashSite = s.String()
+				flushResult(j, r)
+				os.Exit(137)
+			}
+			return Action{}
+		})
+	}})
+	r.Committed = res.Committed
+	if res.OpErr != nil || res.Mismatch != "" {
+		r.Err = fmt.Sprintf("victim ops: %v %s", res.OpErr, res.Mismatch)
+	}
+	if tx != nil {
+		r.CommitCall = tx.Calls() - before
+		for _, s := range tx.Trace[before:] {
+			r.Sites = append(r.Sites, s.Name())
+		}
+	}
+}
+
+// runRestartJob is the process that comes up after the crash: public API only.
+func runRestartJob(e *Env, j Job, r *JobResult) {
+	stores := j.Stores
+	d, err := e.Dump(stores, sop.ForReading)
+	if err != nil {
+		r.FirstDumpErr = err.Error()
+	}
+	r.FirstDumps = d
+	// later transactions: each Begin gives SOP's maintenance a chance to run
+	for w := 0; w < j.Warmups; w++ {
+		t, err := e.NewTxn(TxnOptions{Mode: sop.ForWriting, MaxTime: 20 * time.Second})
+		if err != nil {
+			r.WarmupErrs = append(r.WarmupErrs, err.Error())
+			continue
+		}
+		if err := t.Tx.Begin(Ctx); err != nil {
+			r.WarmupErrs = append(r.WarmupErrs, "Begin: "+err.Error())
+			continue
+		}
+		for _, so := range stores {
+			if _, err := OpenBtree[int, string](t, so.Name); err != nil {
+				r.WarmupErrs = append(r.WarmupErrs, "Open: "+err.Error())
+			}
+		}
+		if t.Tx.HasBegun() {
+			if err := t.Tx.Commit(Ctx); err != nil {
+				r.WarmupErrs = append(r.WarmupErrs, "Commit: "+err.Error())
+			}
+		}
+	}
+	d, err = e.Dump(stores, sop.ForReading)
+	if err != nil {
+		r.Err = "dump after restart: " + err.Error()
+		return
+	}
+	r.Dumps = d
+	// the victim's changes again, without faults: nothing it left behind may block them
+	if j.History != nil {
+		models := make([]*Model, len(stores))
+		for i := range stores {
+			models[i] = &Model{Unique: stores[i].Unique, Items: append([]KV{}, d[i].Items...)}
+		}
+		p := j.History.Txns[j.Victim]
+		t0 := time.Now()
+		_, res := e.RunTxn(p, stores, models, RunOpts{MaxTime: 8 * time.Second})
+		if res.OpErr != nil {
+			r.RetryErr = "ops: " + res.OpErr.Error()
+		} else if res.CommitErr != nil {
+			r.RetryErr = fmt.Sprintf("commit after %.1fs: %v", time.Since(t0).Seconds(), res.CommitErr)
+		}
+	}
+	d2, err := e.Dump(stores, sop.ForReading)
+	if err != nil {
+		r.ProbeErr = "dump after the retry: " + err.Error()
+		return
+	}
+	_ = d2
 }
